@@ -223,3 +223,5 @@ BOUNDS = {"stakers with state": NU, "claims per staker": "<= 2", "hooks": "<= 1"
 OUTSIDE = "more than 2 pending claims per staker (partition loop uniform); the token's own bookkeeping (a cw20 that follows the spec credits before calling Receive)"
 ASSUMPTIONS = ["ghost `holdings`: tokens listed in info.funds / announced by the configured cw20's Receive have been credited to the contract before the call (platform / cw20 spec)",
                "a payout message in the Response executes or the whole transaction reverts (no reply_on)"]
+
+SECOND_SOLVER = True      # thorough tier: every non-trivial obligation is re-discharged with cvc5
